@@ -524,11 +524,9 @@ func (self *Analyzer) TypeCheck(got ast.Type, expected ast.Type, options TypeChe
 
 			for expectedIdx, expectedParam := range expectedFnParams.Params {
 				var foundParam *ast.FunctionTypeParam = nil
-				for _, gotParam := range gotFnParams.Params {
-					if expectedParam.Name.Ident() == gotParam.Name.Ident() {
-						foundParam = &gotParam
-						break
-					}
+				// arguments are passed by position: the parameter of that name has to stand at the same place
+				if gotParam := gotFnParams.Params[expectedIdx]; expectedParam.Name.Ident() == gotParam.Name.Ident() {
+					foundParam = &gotParam
 				}
 
 				if foundParam == nil {
